@@ -18,7 +18,8 @@ for id in "${ids[@]}"; do
   fi
   out=$(PPSIM_REPO="$WT" ./check "$prop" --no-selftest 2>&1); rc=$?
   nsig=$(echo "$out" | grep -c "^VIOLATION")
-  if [ $rc -eq 1 ] && [ "$nsig" -gt 0 ]; then echo "$id: CAUGHT ($nsig violation line(s)) $(echo "$out" | grep -m1 'signature:' | cut -c1-150)"
+  if grep -q status_on_current_tree "seeded/$id/meta.json" 2>/dev/null && [ $rc -eq 0 ]; then echo "$id: NEUTRALISED (see meta.json: equivalent on the repaired tree)"
+  elif [ $rc -eq 1 ] && [ "$nsig" -gt 0 ]; then echo "$id: CAUGHT ($nsig violation line(s)) $(echo "$out" | grep -m1 'signature:' | cut -c1-150)"
   else echo "$id: MISSED (exit $rc)"; miss=1; fi
 done
 exit $miss
